@@ -7,10 +7,13 @@ L(n) == <<n \div 65536, n % 65536>>
 ENUMS_ == [ Hand   |-> {[name |-> "A", ord |-> L(0)], [name |-> "B", ord |-> L(1)], [name |-> "C", ord |-> L(3)]},
             Plain  |-> {[name |-> "Zero", ord |-> L(0)], [name |-> "One", ord |-> L(1)], [name |-> "Five", ord |-> L(5)]},
             WithNone |-> {[name |-> "None_", ord |-> L(0)], [name |-> "Some", ord |-> L(1)]},
-            Wide   |-> {[name |-> "Low", ord |-> L(1)], [name |-> "High", ord |-> L(252)], [name |-> "Top", ord |-> L(255)], [name |-> "Big", ord |-> L(64008)]} ]
-INTS == {L(-1), L(0), L(1), L(2), L(3), L(5), L(252), L(253), L(255), L(64008), <<32768, 0>>, <<62517, 37969>>}
+            Wide   |-> {[name |-> "Low", ord |-> L(1)], [name |-> "High", ord |-> L(252)], [name |-> "Top", ord |-> L(255)], [name |-> "Big", ord |-> L(64008)]},
+            \* declared out of ordinal order, like PacketFamily (Init = 255 first): DECLORDER gives the position of each member
+            Unsorted |-> {[name |-> "Init", ord |-> L(255)], [name |-> "First", ord |-> L(1)], [name |-> "Mid", ord |-> L(9)], [name |-> "Second", ord |-> L(2)]} ]
+DECLORDER == [Unsorted |-> <<"Init", "First", "Mid", "Second">>]
+INTS == {L(-1), L(0), L(1), L(2), L(3), L(5), L(9), L(252), L(253), L(255), L(64008), <<32768, 0>>, <<62517, 37969>>}
 E == INSTANCE ProtocolEnum WITH ENUMS <- ENUMS_
-ASSUME PrintT(ToJson([enums |-> ENUMS_]))
+ASSUME PrintT(ToJson([enums |-> ENUMS_, declorder |-> DECLORDER]))
 vars == <<members, history, fresh>>
 Init == E!Init
 Next == Len(history) < DEPTH /\ \E e \in DOMAIN ENUMS_, n \in INTS : E!Construct(e, n)
